@@ -14,10 +14,13 @@
    owed     s :> set of message ids the subscription still has to deliver and get Acked
    infl     s :> set of message ids delivered to s and not settled yet
    log      topic :> set of ids of successfully published messages (persistent mode)
-   pub      p :> [m, topic, phase, sure, late]           pending Publish calls
+   pub      p :> [m, topic, phase, sure, late, after]    pending Publish calls
               phase "started" | "lin";  late = the call started after Close had returned;
               sure = the subscriptions of the topic whose Subscribe call had returned
-              before this Publish was called (they are certainly registered for it)
+              before this Publish was called (they are certainly registered for it);
+              after = the call standing for the previous message of the same multi-message
+              Publish ("" = none): one Go call Publish(topic, m1, .., mn) is n abstract calls
+              that start together and end together
    msgs     m :> [payload, meta]                         what was handed to Publish
    subcall  s :> [late]                                  pending Subscribe calls
    closers  set of pending Close calls                                              *)
@@ -37,9 +40,9 @@ AInit(c) ==
     /\ subcall = << >> /\ closers = {}
 
 \* ---- Publish ----
-PublishStart(p, m, t, payload, meta) ==
+PublishStart(p, m, t, payload, meta, aft) ==
     /\ p \notin DOMAIN pub /\ m \notin DOMAIN msgs
-    /\ pub' = Upd(pub, p, [m |-> m, topic |-> t, phase |-> "started", late |-> closed = "closed",
+    /\ pub' = Upd(pub, p, [m |-> m, topic |-> t, phase |-> "started", late |-> closed = "closed", after |-> aft,
                            sure |-> {s \in DOMAIN sub : sub[s].topic = t /\ sub[s].st # "failed" /\ s \notin DOMAIN subcall}])
     /\ msgs' = Upd(msgs, m, [payload |-> payload, meta |-> meta])
     /\ UNCHANGED <<cfg, closed, sub, owed, infl, log, subcall, closers>>
@@ -56,10 +59,10 @@ PublishLin(p) ==
     /\ UNCHANGED <<cfg, closed, sub, infl, msgs, subcall, closers>>
 
 \* start and linearization in one step (used where the order of linearization points is immaterial)
-PublishStartLin(p, m, t, payload, meta) ==
+PublishStartLin(p, m, t, payload, meta, aft) ==
     /\ p \notin DOMAIN pub /\ m \notin DOMAIN msgs /\ closed # "closed"
     /\ LET tg == {s \in DOMAIN sub : sub[s].st = "reg" /\ sub[s].topic = t /\ ~sub[s].chclosed} IN
-         /\ pub' = Upd(pub, p, [m |-> m, topic |-> t, phase |-> "lin", late |-> FALSE,
+         /\ pub' = Upd(pub, p, [m |-> m, topic |-> t, phase |-> "lin", late |-> FALSE, after |-> aft,
                                 sure |-> {s \in DOMAIN sub : sub[s].topic = t /\ sub[s].st # "failed" /\ s \notin DOMAIN subcall}])
          /\ owed' = [s \in DOMAIN owed |-> IF s \in tg THEN owed[s] \cup {m} ELSE owed[s]]
          /\ log' = IF cfg.persistent THEN Upd(log, t, LogOf(t) \cup {m}) ELSE log
@@ -119,11 +122,16 @@ SubscribeEndErr(s) ==
     /\ UNCHANGED <<cfg, closed, owed, infl, log, pub, msgs, closers>>
 
 \* ---- delivery ----
+\* the messages of one blocking multi-message Publish are handed over one after the other: a message
+\* becomes receivable (by anybody) only after its predecessor in the call was acked by everyone it waits for
+BatchOrdered(m) == cfg.blocking =>
+    \A p \in DOMAIN pub : (pub[p].m = m /\ pub[p].after \in DOMAIN pub) => (pub[pub[p].after].phase = "lin" /\ Released(pub[p].after))
 \* s receives a copy of m.  While the subscription is alive at most one message
 \* is unsettled; m is delivered again only after the previous delivery was Nacked.
 Recv(s, m) ==
     /\ s \in DOMAIN sub /\ ~sub[s].chclosed
     /\ m \in owed[s] /\ m \notin infl[s]
+    /\ BatchOrdered(m)
     /\ ~Dying(s) => infl[s] = {}
     /\ infl' = [infl EXCEPT ![s] = @ \cup {m}]
     /\ UNCHANGED <<cfg, closed, sub, owed, log, pub, msgs, subcall, closers>>
